@@ -196,17 +196,34 @@ def four_body_config(M0, mf, spins, chains, data_opts=None):
     A -> X + Y topologies:  {"kind":"22","R1":(name,J,P,m,w,("B","C")),"R2":(name,J,P,m,w,("D","E"))}
                           or {"kind":"31","R":(name,J,P,m,w),"S":(name,J,P,m,w,("B","C")),"third":"D","fourth":"E"}"""
     finals = ["B", "C", "D", "E"]
-    decay = {"A": []}
+    decay = {}
     particle = {"$top": {"A": {"J": spins["A"][0], "P": spins["A"][1], "mass": M0}},
                 "$finals": {k: {"J": spins[k][0], "P": spins[k][1], "mass": mf[k]} for k in finals}}
+    def add_decay(core, outs):
+        # a particle with several decay modes: list of lists
+        outs = list(outs)
+        if core not in decay:
+            decay[core] = outs
+        else:
+            cur = decay[core]
+            if cur and not isinstance(cur[0], list):
+                cur = [cur]
+            if outs not in cur:
+                cur.append(outs)
+            decay[core] = cur
+    decay["A"] = []
     for ch in chains:
         if ch["kind"] == "22":
             n1, J1, P1, m1, w1, d1 = ch["R1"]; n2, J2, P2, m2, w2, d2 = ch["R2"]
-            decay["A"].append([n1, n2]); decay[n1] = list(d1); decay[n2] = list(d2)
+            if [n1, n2] not in decay["A"]:
+                decay["A"].append([n1, n2])
+            add_decay(n1, d1); add_decay(n2, d2)
             particle[n1] = {"J": J1, "P": P1, "mass": m1, "width": w1}; particle[n2] = {"J": J2, "P": P2, "mass": m2, "width": w2}
         else:
             nR, JR, PR, mR, wR = ch["R"]; nS, JS, PS, mS, wS, dS = ch["S"]
-            decay["A"].append([nR, ch["fourth"]]); decay[nR] = [nS, ch["third"]]; decay[nS] = list(dS)
+            if [nR, ch["fourth"]] not in decay["A"]:
+                decay["A"].append([nR, ch["fourth"]])
+            add_decay(nR, [nS, ch["third"]]); add_decay(nS, dS)
             particle[nR] = {"J": JR, "P": PR, "mass": mR, "width": wR}; particle[nS] = {"J": JS, "P": PS, "mass": mS, "width": wS}
     data = {"dat_order": finals}
     if data_opts:
